@@ -13,6 +13,7 @@ import (
 	"github.com/aperturerobotics/bifrost/protocol"
 
 	"verif/harness/lib"
+	"verif/harness/quiet"
 )
 
 type scen struct {
@@ -22,6 +23,8 @@ type scen struct {
 	pre    [2][]int // pool indices added before the link comes up
 	steps  int      // random steps
 	script []string // scripted steps (instead of random ones)
+	long   bool     // directives with 16–128 KiB protocol IDs: op lines are abbreviated in the report
+	free   bool     // no model comparison at all (64–128 KiB protocol IDs: a model query per step costs seconds): real-enabled actions + the model-independent monitors only
 }
 
 // run state of one scenario
@@ -74,6 +77,10 @@ func (r *runner) check(branch string) bool {
 				}
 			}
 		}
+	}
+	if r.sc.long && len(line) > 3000 {
+		line = line[:1500] + "…[abbreviated: protocol IDs / contexts of 16–128 KiB, PRNG bytes of this seed]…" + line[len(line)-300:]
+		r.last = line
 	}
 	r.e.rep.Compare(r.sc.label+" "+line, want, got, branch, key, mon)
 	return got == want
@@ -325,6 +332,106 @@ func (r *runner) linkSetup() bool {
 	return true
 }
 
+// realEnabled lists the environment actions the REAL system offers (no model): control packets
+// in flight, open requests waiting, opened streams not yet dispatched.
+func (r *runner) realEnabled() []string {
+	w := r.w
+	var l []string
+	w.mtx.Lock()
+	p, from := w.ctrl, w.ctrlFrom
+	for _, q := range w.reqs {
+		if strings.HasPrefix(string(q.pid), "solicit:") {
+			l = append(l, fmt.Sprintf("o%d:%s", q.side, string(q.pid)[len("solicit:"):]))
+		}
+	}
+	for i := 0; i < 2; i++ {
+		for _, s := range w.arriving[i] {
+			l = append(l, fmt.Sprintf("v%d:%d", i, s))
+		}
+	}
+	w.mtx.Unlock()
+	if p != nil {
+		p.mtx.Lock()
+		for i := 0; i < 2; i++ {
+			ei := 0
+			if from != i {
+				ei = 1
+			}
+			if len(p.pending[ei]) > 0 {
+				l = append(l, fmt.Sprintf("d%d", i))
+			}
+		}
+		p.mtx.Unlock()
+	}
+	sort.Strings(l)
+	return l
+}
+
+// settleReal waits until the real system has come to rest: the observation and the offered
+// actions unchanged, and no goroutine runnable, for several samples.
+func (r *runner) settleReal() {
+	last, stable := "", 0
+	deadline := time.Now().Add(waitLimit)
+	for stable < 4 && time.Now().Before(deadline) {
+		time.Sleep(300 * time.Microsecond)
+		cur := r.w.observe() + strings.Join(r.realEnabled(), ",")
+		if cur == last && quiet.Busy() == 0 {
+			stable++
+		} else {
+			stable, last = 0, cur
+		}
+	}
+}
+
+// freeRun continues a scripted scenario after the model comparison failed: directive changes of
+// the remaining script are performed, "q" drains the real system (every action it offers, in a
+// seeded random order), and the safety / settled monitors — which use no model and no hash
+// format — are evaluated on what the real controllers did.
+func (r *runner) freeRun(rest []string) {
+	r.e.rep.Branches["freerun"]++
+	drain := func() {
+		for i := 0; i < 300; i++ {
+			r.settleReal()
+			en := r.realEnabled()
+			if len(en) == 0 {
+				return
+			}
+			tok := en[r.e.rng.Intn(len(en))]
+			var side, k int
+			switch tok[0] {
+			case 'd':
+				fmt.Sscanf(tok[1:], "%d", &side)
+				r.deliver(side)
+			case 'o':
+				r.open(int(tok[1]-'0'), tok[3:])
+			case 'v':
+				fmt.Sscanf(tok[1:], "%d:%d", &side, &k)
+				r.arrive(side, k)
+			}
+		}
+	}
+	for _, tok := range append(append([]string(nil), rest...), "q") {
+		var side, k int
+		switch tok[0] {
+		case 'a':
+			fmt.Sscanf(tok[1:], "%d:%d", &side, &k)
+			if _, ok := r.byPool[side][k]; !ok {
+				r.addDir(side, k)
+			}
+		case 'r':
+			fmt.Sscanf(tok[1:], "%d:%d", &side, &k)
+			if _, ok := r.byPool[side][k]; ok {
+				r.removeDir(side, k)
+			}
+		case 'q':
+			drain()
+			r.monitorsFree(r.sc.label + " (free run after the model comparison failed)")
+		default:
+			drain()
+		}
+	}
+}
+
 func (e *engine) runScenario(sc scen) {
 	w, err := e.newWorld(sc.c)
 	if err != nil {
@@ -351,6 +458,19 @@ func (e *engine) runScenario(sc scen) {
 			return true
 		})
 	}
+	if sc.free {
+		for _, i := range []int{0, 1} {
+			id, err := w.n[i].addLinkValue(w.n[i].ml)
+			if err != nil {
+				panic(err)
+			}
+			w.n[i].linkVal = id
+		}
+		r.linkUp = true
+		r.last = fmt.Sprintf("%s (model-free: peers %x / %x, script %s)", sc.label, []byte(sc.c.peers[0]), []byte(sc.c.peers[1]), strings.Join(sc.script, " "))
+		r.freeRun(sc.script)
+		return
+	}
 	if !r.linkSetup() {
 		return
 	}
@@ -358,8 +478,14 @@ func (e *engine) runScenario(sc scen) {
 		r.monitors("linkup")
 	}
 	if sc.script != nil {
-		for _, tok := range sc.script {
+		for i, tok := range sc.script {
 			ok := true
+			if r.failed && sc.long {
+				// the model no longer describes the run: drive the real system on its own
+				// observations and let the model-independent monitors judge it
+				r.freeRun(sc.script[i:])
+				return
+			}
 			switch {
 			case tok == "q":
 				ok = r.drain()
@@ -377,6 +503,9 @@ func (e *engine) runScenario(sc scen) {
 				ok = r.do(tok)
 			}
 			if !ok {
+				if sc.long {
+					r.freeRun(sc.script[i+1:])
+				}
 				return
 			}
 		}
